@@ -79,6 +79,11 @@ def build(registered):
             "path": "/verif/spec",
             "serves_properties": [c["property_id"] for c in checks],
             "kind_free_text": "explicit TLA+ specification (spec/*.tla) model-checked with TLC; behaviours generated by TLC (Gen_*.tla) are replayed into the real library and recorded executions are validated by TLA+ monitors (Trace_*.tla, Monitor*.tla) evaluated by TLC",
+        }, {
+            "name": "apalache-inductive",
+            "path": "/verif/spec/apalache",
+            "serves_properties": ["C01", "C02"],
+            "kind_free_text": "thorough tier only: inductive invariant (feasibility + bookkeeping) for symbolic durations and machine sets, proved with Apalache",
         }],
         "checks": checks,
         "not_applicable": na,
